@@ -164,8 +164,8 @@ async def run_schedule(config: dict, prefix: list[int], rng=None) -> Outcome:
             out.labels.append(f"S{index}")
             start_events[index].set()
         step += 1
-        if step > 400:
-            out.problems.append(("schedule-too-long", "more than 400 decisions"))
+        if step > int(config.get("max_steps") or 400):
+            out.problems.append(("schedule-too-long", f"more than {int(config.get('max_steps') or 400)} decisions"))
             break
     if not all(t.done() for t in tasks):
         out.deadlock = True
